@@ -59,7 +59,10 @@ impl<const T: JoinType> HashJoinExecutor<T> {
             let chunk = chunk?;
             let keys_chunk = Evaluator::new(&self.right_keys).eval_list(&chunk)?;
             for (right_row, keys) in chunk.rows().zip(keys_chunk.rows()) {
-                if let Some(left_rows) = hash_map.get_mut(&keys.values().collect::<JoinKeys>()) {
+                let keys = keys.values().collect::<JoinKeys>();
+                // a NULL key never equals anything (not even another NULL)
+                let has_null = keys.iter().any(|k| k.is_null());
+                if !has_null && let Some(left_rows) = hash_map.get_mut(&keys) {
                     left_rows.matched = true;
                     for left_row in &left_rows.rows {
                         let values = left_row.iter().cloned().chain(right_row.values());
@@ -131,7 +134,12 @@ impl HashSemiJoinExecutor {
             let keys_chunk = Evaluator::new(&self.left_keys).eval_list(&chunk)?;
             let exists = keys_chunk
                 .rows()
-                .map(|key| key_set.contains(&key.values().collect::<JoinKeys>()) ^ self.anti)
+                .map(|key| {
+                    let key = key.values().collect::<JoinKeys>();
+                    // a NULL key never equals anything (not even another NULL)
+                    let has_null = key.iter().any(|k| k.is_null());
+                    (!has_null && key_set.contains(&key)) ^ self.anti
+                })
                 .collect::<Vec<bool>>();
             yield chunk.filter(&exists);
         }
@@ -177,7 +185,10 @@ impl HashSemiJoinExecutor2 {
             let keys_chunk = Evaluator::new(&self.left_keys).eval_list(&chunk)?;
             let mut exists = Vec::with_capacity(chunk.cardinality());
             for (key, lrow) in keys_chunk.rows().zip(chunk.rows()) {
-                let b = if let Some(rchunk) = key_set.get(&key.values().collect::<JoinKeys>()) {
+                let key = key.values().collect::<JoinKeys>();
+                // a NULL key never equals anything (not even another NULL)
+                let has_null = key.iter().any(|k| k.is_null());
+                let b = if !has_null && let Some(rchunk) = key_set.get(&key) {
                     let lchunk = self.left_row_to_chunk(&lrow, rchunk.cardinality());
                     let join_chunk = lchunk.row_concat(rchunk.clone());
                     let ArrayImpl::Bool(a) = Evaluator::new(&self.condition).eval(&join_chunk)?
